@@ -1,30 +1,20 @@
 package main
 
 import (
-	"encoding/json"
+	"errors"
 	"fmt"
 	"os"
-	"strings"
 
+	"github.com/jsightapi/jsight-schema-core/kit"
 	"github.com/jsightapi/jsight-schema-core/notations/jschema"
 )
 
 func main() {
-	s := jschema.New("root", os.Args[1])
-	for _, a := range os.Args[2:] {
-		i := strings.Index(a, "=")
-		if err := s.AddType(a[:i], jschema.New(a[:i], a[i+1:])); err != nil {
-			fmt.Println("addtype", a[:i], err)
-		}
+	root := jschema.New("root", os.Args[1])
+	err := root.Check()
+	var je kit.JSchemaError
+	if errors.As(err, &je) {
+		fmt.Println("file", je.Filename(), "index", je.Index(), "line", je.Line(), "type", je.IncorrectUserType(), "len", len(os.Args[1]))
 	}
-	fmt.Printf("check=%v\n", s.Check())
-	ex, err := s.Example()
-	fmt.Printf("example=%q %v\n", ex, err)
-	u, _ := s.UsedUserTypes()
-	fmt.Println("used=", u)
-	n, err := s.Len()
-	fmt.Println("len=", n, err, len(os.Args[1]))
-	a, err := s.GetAST()
-	b, _ := json.MarshalIndent(a, "", " ")
-	fmt.Printf("ast=%s %v\n", b, err)
+	fmt.Println(err)
 }
